@@ -31,6 +31,7 @@ type multicastProxy struct {
 	udpConn  *net.UDPConn
 	destAddr [rtpChannelCount]*net.UDPAddr
 	cid      media.CID
+	gen      uint32 // 代理每次（重新）启动的代次；已停止的那一代消费协程收尾时的 Close 不能关掉新的一代
 
 	multicastLock sync.Mutex
 	members       []io.Closer
@@ -62,9 +63,10 @@ func (proxy *multicastProxy) AddMember(m io.Closer) {
 			}
 		}
 
-		proxy.cid = stream.StartConsume(proxy, media.RTPPacket,
-			"net = rtsp-multicast, "+proxy.multicastIP)
+		proxy.gen++
 		proxy.closed = false
+		proxy.cid = stream.StartConsume(&multicastIncarnation{proxy, proxy.gen}, media.RTPPacket,
+			"net = rtsp-multicast, "+proxy.multicastIP)
 
 		proxy.logger.Info("multicast proxy started.")
 	}
@@ -131,6 +133,26 @@ func (proxy *multicastProxy) Consume(p Pack) {
 			return
 		}
 	}
+}
+
+// multicastIncarnation 是代理某一代在流上的消费者。
+// StopConsume 是异步的：消费协程稍后才退出并调用 Close，那时代理可能已经为新成员重新启动
+type multicastIncarnation struct {
+	proxy *multicastProxy
+	gen   uint32
+}
+
+func (mi *multicastIncarnation) Consume(p Pack) { mi.proxy.Consume(p) }
+
+func (mi *multicastIncarnation) Close() error {
+	mi.proxy.multicastLock.Lock()
+	defer mi.proxy.multicastLock.Unlock()
+
+	if mi.gen != mi.proxy.gen { // 过时的一代
+		return nil
+	}
+	mi.proxy.close()
+	return nil
 }
 
 func (proxy *multicastProxy) Close() error {
